@@ -31,6 +31,8 @@ def main():
     dst = os.path.join(VERIF, "seeded", sid)
     os.makedirs(dst, exist_ok=True)
     for f in ("patch.diff", "demo.py", "meta.json"):
+        if os.path.abspath(src) == os.path.abspath(dst):
+            break
         shutil.copy(os.path.join(src, f), os.path.join(dst, f))
     meta = json.load(open(os.path.join(dst, "meta.json")))
     checks = [meta["property"]]
